@@ -187,6 +187,11 @@ def build_program(inp, P, env=None):
         inp.env = {}
         for (name, typ, size) in P["vars"]:
             inp.env[name] = seq.declare_variable(name, size=(size if size > 1 else None), dtype=(int if typ == "int" else float))
+    if P.get("lets"):
+        # named sub-expressions: ONE expression object (or value) referenced from several places of the program
+        inp.env = dict(inp.env)
+        for (name, expr) in P["lets"]:
+            inp.env[name] = l2.ev(expr, inp.env)
     prog = [resolve_ph(inp, op) for op in P["prog"]]
     l2.run_prefix(inp, seq, prog)
     return seq
